@@ -41,6 +41,7 @@ type GateStore struct {
 	pending map[int]*gateCall
 	nextID  int
 	errLost error
+	foreign []string // storage operations the lock protocol model does not know, used since the last check
 }
 
 func newGateStore() *GateStore {
@@ -161,20 +162,64 @@ func (s *GateStore) CasByVersion(ctx context.Context, r kvs.Record) (kvs.Record,
 	return r, nil
 }
 
+// The operations below are NOT part of the lock protocol as modelled (kvlock.go uses Create, Delete,
+// CasByVersion and WaitForVersionChange only).  They are implemented faithfully (un-gated, atomic) so that a
+// changed kvlock.go that starts using them behaves as it would on a real store, and every use is noted: the
+// trace then carries `mon C01-storage-calls-known`, which the check reports (the model has no such step).
+func (s *GateStore) note(op string) {
+	s.mu.Lock()
+	s.foreign = append(s.foreign, op)
+	s.mu.Unlock()
+}
+
+func (s *GateStore) takeForeign() []string {
+	s.mu.Lock()
+	defer s.mu.Unlock()
+	f := s.foreign
+	s.foreign = nil
+	return f
+}
+
 func (s *GateStore) Get(ctx context.Context, key string) (kvs.Record, error) {
-	return kvs.Record{}, errors.New("GateStore: Get is not used by kvsLock")
+	s.note("Get")
+	s.mu.Lock()
+	defer s.mu.Unlock()
+	if s.rec == nil {
+		return kvs.Record{}, gerrors.ErrNotExist
+	}
+	return s.rec.Copy(), nil
 }
 func (s *GateStore) GetMany(ctx context.Context, keys ...string) ([]*kvs.Record, error) {
-	return nil, errors.New("GateStore: GetMany is not used by kvsLock")
+	s.note("GetMany")
+	s.mu.Lock()
+	defer s.mu.Unlock()
+	res := make([]*kvs.Record, len(keys))
+	for i := range keys {
+		if s.rec != nil && s.rec.Key == keys[i] {
+			cp := s.rec.Copy()
+			res[i] = &cp
+		}
+	}
+	return res, nil
 }
 func (s *GateStore) Put(ctx context.Context, r kvs.Record) (kvs.Record, error) {
-	return kvs.Record{}, errors.New("GateStore: Put is not used by kvsLock")
+	s.note("Put")
+	s.mu.Lock()
+	defer s.mu.Unlock()
+	r.Version = s.newVersion()
+	cp := r.Copy()
+	s.rec = &cp
+	return r, nil
 }
 func (s *GateStore) PutMany(ctx context.Context, rs []kvs.Record) error {
-	return errors.New("GateStore: PutMany is not used by kvsLock")
+	for _, r := range rs {
+		s.Put(ctx, r)
+	}
+	return nil
 }
 func (s *GateStore) ListKeys(ctx context.Context, p string) (iterable.Iterator[string], error) {
-	return nil, errors.New("GateStore: ListKeys is not used by kvsLock")
+	s.note("ListKeys")
+	return nil, errors.New("GateStore: ListKeys is not supported")
 }
 
 func (s *GateStore) recVer() string {
@@ -404,6 +449,9 @@ func (lc *lockCase) describe() string {
 
 // check emits the observable state of the real system; the driver compares it with the model's.
 func (lc *lockCase) check() {
+	if f := lc.store.takeForeign(); len(f) > 0 && !lc.failed {
+		lc.ctx.R.Quiet("mon MODEL-storage-calls-known", "kvsLock called Storage."+strings.Join(f, ",")+": the lock protocol model has no such step")
+	}
 	var holders []string
 	nh := 0
 	for _, w := range lc.workers {
